@@ -638,6 +638,11 @@ func (c *controller) reset(ctx context.Context, prompter string) error {
 	c.lifecycleLock.Lock()
 	defer c.lifecycleLock.Unlock()
 
+	// Don't allow any reset operations if the controller is disabled.
+	if c.disabled {
+		return errors.New("controller disabled")
+	}
+
 	// Check if the session is currently running.
 	running := c.cancel != nil
 
